@@ -236,6 +236,23 @@ pub static SAW: std::sync::atomic::AtomicU8 = std::sync::atomic::AtomicU8::new(0
 /// audit is a deterministic function of exactly that, so it is run once per unique state.
 pub static AUDITED: std::sync::OnceLock<Vec<std::sync::Mutex<std::collections::HashSet<u64>>>> = std::sync::OnceLock::new();
 
+pub const KINDS: [&str; 23] = [
+    "push", "push_entry", "push_front", "push_entry_front", "insert", "insert_front", "remove", "remove_unique", "remove_at", "sort", "get_mut_write",
+    "iter_mut_write", "get_unique_mut_write", "get_or_insert_with", "get_mut_or_insert_with_write", "clone", "extend_pairs", "extend_entries",
+    "from_iter_entries", "from_iter_pairs", "from_vec", "into_iter_from", "ref_mut_into_iter_write",
+];
+
+/// Transitions executed per operation kind (evidence: the outcome histogram of the search).
+pub static KIND_COUNT: [std::sync::atomic::AtomicU64; 23] = [const { std::sync::atomic::AtomicU64::new(0) }; 23];
+
+impl Act {
+    pub fn kind_index(&self) -> usize {
+        let name = self.to_string();
+        let name = name.split('(').next().unwrap_or("");
+        KINDS.iter().position(|k| *k == name).unwrap_or(0)
+    }
+}
+
 pub fn reset_run_state() {
     SAW.store(0, std::sync::atomic::Ordering::Relaxed);
     for m in AUDITED.get_or_init(|| (0..64).map(|_| Default::default()).collect()) {
@@ -598,6 +615,11 @@ pub fn audit(real: &Object, model: &RObj<Val>, keys: &[String], c14: bool) -> Re
         if real.contains_key(k) != !p.is_empty() {
             return fail("contains_key");
         }
+        // the same lookups through the owned key type (Key): hashing and equivalence must
+        // not depend on the type used to ask
+        if real.contains_key(&key(k)) != !p.is_empty() || real.index_of(&key(k)) != p.first().copied() || real.get(&key(k)).count() != p.len() {
+            return fail("contains_key/index_of/get with a Key argument");
+        }
         if real.index_of(k) != p.first().copied() {
             return fail("index_of");
         }
@@ -831,6 +853,7 @@ impl Model for ObjModel {
     fn next_state(&self, s: &St, a: Act) -> Option<St> {
         let mut n = s.clone();
         n.depth += 1;
+        KIND_COUNT[a.kind_index()].fetch_add(1, std::sync::atomic::Ordering::Relaxed);
         let r = explore::guard(|| {
             let mut saw = 0u8;
             let r = apply(&mut n.real, &mut n.model, &a, &mut saw);
